@@ -20,6 +20,7 @@ func runC10(c *Ctx, r *Report) {
 	c10Policies(c, r)
 	c11R5(c, r, "C10.R4")
 	c10R5(c, r, "C10.R5")
+	c10Limits(c, r, "C10.R6")
 }
 
 type polSpec struct {
@@ -264,5 +265,27 @@ func c10R5(c *Ctx, r *Report, rule string) {
 			}
 		}
 		r.check(good, rule, fname(fn), "hash inputs", c.pos(fn.Pos()), "key = upstream string + client key only", "ip_hash is not a deterministic function of upstream and client: "+detail)
+	}
+}
+
+// c10Limits: what "below its connection limit" is measured against. Outside the unmarshallers the connection
+// limit of an upstream is written only as the copy of the passive checks' unhealthy_connection_count (the two
+// options mean the same thing); full() - which the availability table C10.R4 evaluates - reads that field.
+func c10Limits(c *Ctx, r *Report, rule string) {
+	r.rule(rule, "limit wiring: outside the unmarshallers every value written to Upstream.MaxConnections derives from PassiveHealthChecks.UnhealthyConnectionCount alone, and at least one such default exists in Upstream.provision", 1)
+	n := 0
+	for _, fn := range c.Funcs {
+		if !strings.HasPrefix(fname(fn), "modules/l4proxy.") || strings.Contains(fname(fn), "Unmarshal") {
+			continue
+		}
+		for _, st := range storesToField(fn, "modules/l4proxy.Upstream", "MaxConnections") {
+			n++
+			ls := leafSet(c.originsIP(fn, st.Val, 0), true)
+			good := len(ls) == 1 && ls[0] == "field:modules/l4proxy.PassiveHealthChecks.UnhealthyConnectionCount"
+			r.check(good, rule, fname(fn), fmt.Sprintf("MaxConnections default#%d", n), c.ipos(st), "copy of unhealthy_connection_count", "the connection limit of an upstream is set from "+strings.Join(ls, ", ")+" instead of unhealthy_connection_count: an upstream at its configured limit still counts as available (or one below it does not)")
+		}
+	}
+	if n == 0 {
+		r.bad(rule, "modules/l4proxy.(*Upstream).provision", "MaxConnections default", "-", "unhealthy_connection_count is no longer copied into the upstream's connection limit: the option has no effect on availability")
 	}
 }
